@@ -519,4 +519,22 @@ def LOp.isPut {α : Type} : LOp α → Bool
   | .put _ _ => true
   | _ => false
 
+/-! ### several libraries: one map per path -/
+
+/-- a store that the library refuses (the key is there already) changes nothing -/
+def Lib.putOr (l : Lib) (k : String) (wire : MVal) : Lib := (l.put k wire).getD l
+
+/-- all libraries of a process / a file system, by path -/
+abbrev Libs := String → Lib
+
+/-- `lib_at_path[key] = obj` -/
+structure PutOp where
+  path : String
+  key : String
+  wire : MVal
+
+def Libs.step (L : Libs) (o : PutOp) : Libs := fun q => if q = o.path then (L q).putOr o.key o.wire else L q
+
+def Libs.run (L : Libs) (ops : List PutOp) : Libs := ops.foldl Libs.step L
+
 end Molli.Model.Codec
